@@ -249,7 +249,41 @@ def gen_syntax():
     return "GenSyntax.v", text, {"whole_name_first": first, "threshold": thr}
 
 
-GENERATORS = {"proc": gen_proc, "vte": gen_vte, "features": gen_features, "syntax": gen_syntax}
+def gen_counter():
+    """which arms of handle_hunk_line call minus_line_counter.count_line(), and the constants of
+    AmbiguousDiffMinusCounter (source scan of src/handlers/hunk.rs and hunk_header.rs)"""
+    src = rustsrc.load(os.path.join(REPO, "src/handlers/hunk.rs"))
+    body = norm(rustsrc.fn_body(src, r"pub fn handle_hunk_line\("))
+    total = body.count("minus_line_counter.count_line()")
+    arms = {}
+    for name, pat in (("HMinus", r"Some\(HunkMinus\(diff_type, raw_line\)\) => \{"), ("HPlus", r"Some\(HunkPlus\(diff_type, raw_line\)\) => \{"),
+                      ("HZero", r"Some\(HunkZero\(diff_type, raw_line\)\) => \{"), ("HOther", r"_ => \{")):
+        m = re.search(pat, body)
+        if not m:
+            raise PatternError(f"handle_hunk_line: arm {name} not found")
+        j = rustsrc.match_brace(body, m.end() - 1)
+        arms[name] = "minus_line_counter.count_line()" in body[m.end():j]
+    if total != sum(arms.values()):
+        raise PatternError(f"handle_hunk_line: {total} count_line() calls, {sum(arms.values())} of them inside the match arms")
+    hh = rustsrc.load(os.path.join(REPO, "src/handlers/hunk_header.rs"))
+    m = re.search(r"const COUNTER_RELEVANT_IF_GREATER_THAN: isize = (-?\d+);", hh)
+    e = re.search(r"const EXPECT_DIFF_3DASH_HEADER: isize = (-?\d+);", hh)
+    if not m or not e:
+        raise PatternError("AmbiguousDiffMinusCounter constants not found")
+    tde = norm(rustsrc.fn_body(hh, r"pub fn three_dashes_expected\(&self\) -> bool"))
+    if tde != "if self.0 > Self::COUNTER_RELEVANT_IF_GREATER_THAN { self.0 <= Self::EXPECT_DIFF_3DASH_HEADER } else { true }":
+        raise PatternError("three_dashes_expected has a different shape: " + tde)
+    text = ("(* GENERATED by tools/translate.py from src/handlers/hunk.rs (handle_hunk_line) and\n"
+            "   src/handlers/hunk_header.rs (AmbiguousDiffMinusCounter). *)\n"
+            "From Coq Require Import ZArith.\nFrom DV Require Import MinusCounter.\n"
+            "Definition code_counted (k : hkind) : bool :=\n  match k with\n"
+            + "".join(f"  | {n} => {coq_bool(arms[n])}\n" for n in ("HMinus", "HZero", "HPlus", "HOther")) + "  end.\n"
+            f"Definition code_relevant_if_gt : Z := ({m.group(1)})%Z.\n"
+            f"Definition code_expect_header_le : Z := ({e.group(1)})%Z.\n")
+    return "GenCounter.v", text, {"counted": arms, "relevant_if_gt": int(m.group(1))}
+
+
+GENERATORS = {"proc": gen_proc, "vte": gen_vte, "features": gen_features, "syntax": gen_syntax, "counter": gen_counter}
 
 
 def run(which=None):
